@@ -100,15 +100,12 @@ Fixpoint resolve' (fuel : nat) (Sc : schema) (frs : list fdef) (sels : list fsel
                 end
             end
         | FInline tc _ sub =>
-            match tc with
-            | None => Err "AttributeError: inline fragment without type condition"
-            | Some tc =>
-                match inline_root_type Sc tc root with
-                | Some r => q <- resolve' fuel' Sc frs sub r ;;
-                            let '(f2, m2, u2) := q in
-                            Ok (fields ++ f2, mixins ++ m2, unp ++ u2)
-                | None => Ok (fields, mixins, unp)
-                end
+            (* since 7309cba a missing type condition means the enclosing type *)
+            match inline_root_type Sc (match tc with Some tc => tc | None => root end) root with
+            | Some r => q <- resolve' fuel' Sc frs sub r ;;
+                        let '(f2, m2, u2) := q in
+                        Ok (fields ++ f2, mixins ++ m2, unp ++ u2)
+            | None => Ok (fields, mixins, unp)
             end
         end) sels (Ok ([], [], []))
   end.
